@@ -522,4 +522,54 @@ theorem C51_reload_last_conf {C R : Type} (handle : Option C → R) (cs : List C
 
 example : tableAfter [1, 2, 3] = some 3 := by decide
 
+/-! ## histories -/
+
+theorem confAfter_append {C Q : Type} (cur : Option C) (a b : List (Step C Q)) :
+    confAfter cur (a ++ b) = confAfter (confAfter cur a) b := by
+  induction a generalizing cur with
+  | nil => rfl
+  | cons s rest ih =>
+    cases s with
+    | load c => cases c <;> simp [confAfter, ih]
+    | req q => simp [confAfter, ih]
+
+theorem histAnswers_append {C Q R : Type} (handle : Option C → Q → R) (cur : Option C) (a b : List (Step C Q)) :
+    histAnswers handle cur (a ++ b) = histAnswers handle cur a ++ histAnswers handle (confAfter cur a) b := by
+  induction a generalizing cur with
+  | nil => rfl
+  | cons s rest ih =>
+    cases s with
+    | load c => cases c <;> simp [histAnswers, confAfter, ih]
+    | req q => simp [histAnswers, confAfter, ih]
+
+/-- **a rejected reload changes nothing**: dropping it from a history leaves the conf in force and every
+    answer unchanged. -/
+theorem C51_rejected_reload_changes_nothing {C Q R : Type} (handle : Option C → Q → R) (cur : Option C)
+    (a b : List (Step C Q)) :
+    confAfter cur (a ++ .load none :: b) = confAfter cur (a ++ b) ∧
+    histAnswers handle cur (a ++ .load none :: b) = histAnswers handle cur (a ++ b) := by
+  constructor
+  · rw [confAfter_append, confAfter_append]; rfl
+  · rw [histAnswers_append, histAnswers_append]; rfl
+
+/-- **no cross-request state**: the answer to a request is the handler applied to the last accepted conf before
+    it; earlier requests (of any number, with any credentials) do not matter. -/
+theorem C51_no_cross_request_state {C Q R : Type} (handle : Option C → Q → R) (cur : Option C)
+    (hist : List (Step C Q)) (q : Q) :
+    histAnswers handle cur (hist ++ [.req q]) =
+        histAnswers handle cur hist ++ [handle (confAfter cur hist) q] ∧
+    confAfter cur hist = confAfter cur (hist.filter fun s => !s.isReq) := by
+  constructor
+  · rw [histAnswers_append]; rfl
+  · induction hist generalizing cur with
+    | nil => rfl
+    | cons s rest ih =>
+      cases s with
+      | load c => cases c <;> simp [confAfter, Step.isReq, ih]
+      | req q' => simp [confAfter, Step.isReq, ih]
+
+example : histAnswers (C := Nat) (Q := Nat) (fun c q => (c, q)) none
+    [.req 1, .load (some 7), .req 2, .load none, .req 3, .load (some 8), .req 4] =
+    [(none, 1), (some 7, 2), (some 7, 3), (some 8, 4)] := by decide
+
 end BfeVerif.C51
